@@ -11,7 +11,8 @@ that can be done without changing what the caller does:
   procedure (no value returned)      the statement `self.h(..)` / `h(..)`
   `return E` only                    any occurrence inside a simple statement, an if / while test, a comprehension
   statements + final `return E`      `x = self.h(..)`, `return self.h(..)`, `x += ..`, `yield ..`, or the call as a direct argument
-  generator without return           `yield from self.h(..)`  (also `for v in self.h(..): yield v`)
+  generator without return           `yield from self.h(..)`  (also `for v in self.h(..): yield v`);  `for T in self.h(..): BODY` when
+                                     the helper yields at one place and BODY has no break / continue of its own: BODY moves there
 
 Early exits of a procedure are first put in structured form (sa/canon.py: `if c: return` + REST -> `if not c: REST`).  A helper
 that is recursive, takes *args / **kwargs, is a property / classmethod, or keeps an inner `return` after structuring is left
@@ -49,8 +50,9 @@ class _Helper:
         self.static = decos == ["staticmethod"]
         self.ok = not decos or self.static
         a = node.args
-        if a.vararg or a.kwarg or a.posonlyargs:
+        if a.kwarg or a.posonlyargs or (a.vararg and a.kwonlyargs):
             self.ok = False
+        self.vararg = a.vararg.arg if a.vararg else None
         self.params = [x.arg for x in a.args + a.kwonlyargs]
         self.defaults = {}
         pos = a.args
@@ -100,6 +102,18 @@ class _Helper:
 class _Instantiate(ast.NodeTransformer):
     def __init__(self, mapping, rename):
         self.mapping, self.rename = mapping, rename
+
+    def visit_Call(self, n):
+        # f(x, *rest) with rest bound to the caller's extra arguments: they are written out
+        new_args = []
+        for a in n.args:
+            if isinstance(a, ast.Starred) and isinstance(a.value, ast.Name) and isinstance(self.mapping.get(a.value.id), ast.Tuple):
+                new_args.extend(copy.deepcopy(x) for x in self.mapping[a.value.id].elts)
+            else:
+                new_args.append(a)
+        n.args = new_args
+        self.generic_visit(n)
+        return n
 
     def visit_Name(self, n):
         if n.id in self.mapping and isinstance(n.ctx, ast.Load):
@@ -190,11 +204,16 @@ class Unextractor:
         """param -> argument expression, or None when the call does not fit the signature."""
         if any(isinstance(a, ast.Starred) for a in call.args) or any(k.arg is None for k in call.keywords):
             return None
-        if len(call.args) > len(h.params):
+        if len(call.args) > len(h.params) and h.vararg is None:
             return None
         out = {}
         for p, a in zip(h.params, call.args):
             out[p] = a
+        if h.vararg is not None:
+            extra = list(call.args[len(h.params):])
+            if not all(_is_simple(x) for x in extra):
+                return None
+            out[h.vararg] = ast.Tuple(elts=extra, ctx=ast.Load())
         for k in call.keywords:
             if k.arg not in h.params or k.arg in out:
                 return None
@@ -204,6 +223,8 @@ class Unextractor:
                 if p not in h.defaults:
                     return None
                 out[p] = h.defaults[p]
+        if h.vararg is not None and h.vararg in h.locals:
+            return None
         return out
 
     def _module_names(self, module):
@@ -335,6 +356,53 @@ class Unextractor:
                     if r is not None:
                         self.inlined.append(h.name)
                         return self.rewrite_block(r[0], module, cname, owner)
+            # for T in self.gen(..): BODY  with a generator helper that yields at one place: BODY runs where the yield is
+            if not st.orelse and isinstance(st.iter, ast.Call):
+                h = self.resolve(st.iter, module, cname)
+                if h is not None and h.kind == "gen" and h.node is not owner:
+                    ys = [n for s_ in h.body for n in ast.walk(s_) if isinstance(n, (ast.Yield, ast.YieldFrom))]
+
+                    def own_level(stmts):
+                        for x in stmts:
+                            if isinstance(x, (ast.Break, ast.Continue)):
+                                yield x
+                            elif isinstance(x, (ast.If, ast.With, ast.Try)):
+                                for fld in ("body", "orelse", "finalbody"):
+                                    yield from own_level(getattr(x, fld, []) or [])
+                                for hd in getattr(x, "handlers", []):
+                                    yield from own_level(hd.body)
+                    if len(ys) == 1 and isinstance(ys[0], ast.Yield) and ys[0].value is not None and not list(own_level(st.body)):
+                        r = self.instantiate(h, st.iter, module)
+                        if r is not None:
+                            body = r[0]
+                            done = []
+
+                            class Y(ast.NodeTransformer):
+                                def visit_Expr(self2, n):
+                                    if isinstance(n.value, ast.Yield) and not done:
+                                        done.append(1)
+                                        tg, val = st.target, n.value.value
+                                        names = [tg] if isinstance(tg, ast.Name) else list(tg.elts) if isinstance(tg, ast.Tuple) else None
+                                        vals = [val] if isinstance(tg, ast.Name) else list(val.elts) if isinstance(val, ast.Tuple) else None
+                                        stored = {x.id for b_ in st.body for x in ast.walk(b_) if isinstance(x, ast.Name) and not isinstance(x.ctx, ast.Load)}
+                                        if names and vals and len(names) == len(vals) and all(isinstance(x, ast.Name) for x in names) \
+                                                and all(_is_simple(v_) for v_ in vals) and not ({x.id for x in names} & stored):
+                                            # the loop variables are just other names for what the helper yields
+                                            mp = {x.id: v_ for x, v_ in zip(names, vals)}
+                                            return [_Instantiate(mp, {}).visit(copy.deepcopy(b_)) for b_ in st.body]
+                                        asg = ast.Assign(targets=[copy.deepcopy(st.target)], value=n.value.value)
+                                        ast.copy_location(asg, n)
+                                        return [asg] + st.body
+                                    return n
+                            body = [Y().visit(b) for b in body]
+                            flat = []
+                            for b in body:
+                                flat.extend(b if isinstance(b, list) else [b])
+                            if done:
+                                self.inlined.append(h.name)
+                                for b in flat:
+                                    ast.fix_missing_locations(b)
+                                return self.rewrite_block(flat, module, cname, owner)
             st.iter = self._subst_expr_helpers(st.iter, module, cname, owner)
             st.body = self.rewrite_block(st.body, module, cname, owner)
             st.orelse = self.rewrite_block(st.orelse, module, cname, owner)
